@@ -72,8 +72,10 @@ REQUIRED = ['skip_on_checks', 'skip_off_checks', 'cause_chain_checks',
 CHUNK_TIMEOUT_S = {'quick': 240, 'thorough': 3000}
 TARGETS = ['apply', 'assign', 'filter', 'sink', 'source', 'source+apply', 'apply_rebatch',
            'assign_rebatch']
-READ_LIMIT = 5000
+READ_LIMIT = 1000
 WAIT_S = 5.0
+HANG_S = 20.0
+_LINGER = {'seen': 0}
 
 
 def plan(tier, seed):
@@ -316,7 +318,12 @@ def real_run(case, records, bad):
   if case['num_threads'] or shared is not None:
     th = threading.Thread(target=work, daemon=True, name='c12-consumer')
     th.start()
-    th.join(30)
+    deadline = time.time() + HANG_S
+    while th.is_alive() and time.time() < deadline:
+      th.join(0.02)
+      if shared is not None and shared['runaway']:
+        th.join(0.2)
+        break
     if th.is_alive():
       return {'hang': True, 'runaway': bool(shared and shared['runaway']),
               'sinks': sinks}
@@ -344,12 +351,16 @@ def real_run(case, records, bad):
   if not all(s.closed for s in sinks):
     gc.collect()
   obs['closed'] = [s.closed for s in sinks]
-  deadline = time.time() + WAIT_S
+  # bounded wait; once two cases of this process saw lingering threads the bound
+  # shrinks so that a systematic leak does not cost WAIT_S per case
+  deadline = time.time() + (WAIT_S if _LINGER['seen'] < 2 else 0.5)
   while True:
     alive = [x for x in set(threading.enumerate()) - baseline if x.is_alive()]
     if not alive or time.time() > deadline:
       break
     time.sleep(0.01)
+  if alive:
+    _LINGER['seen'] += 1
   obs['threads_alive'] = [x.name for x in alive]
   del it
   if not all(s.closed for s in sinks):
@@ -442,7 +453,7 @@ def check_case(ctx, case):
     if obs['runaway']:
       viol('source_read_runaway', {'note': f'> {READ_LIMIT} reads of the source'})
     else:
-      ctx.inconclusive_case('real run did not finish within 30 s', case)
+      ctx.inconclusive_case(f'real run did not finish within {HANG_S} s', case)
     return
   if obs['runaway']:
     viol('source_read_runaway', {'note': f'> {READ_LIMIT} reads of the source'})
